@@ -159,21 +159,25 @@ func VHarness_C14_SnapshotRoundTrip() {
 	vReach("done")
 }
 
-// one byte of the header region altered
-//vcheck: reach=done tier=thorough
+// one bit (or one whole byte) of the header region altered: the read fails, or the
+// payload and the header fields the loader acts on are unchanged
+//vcheck: reach=detected,undetected,done
 func VHarness_C14_SnapshotHeaderFlip() {
 	n := 2
-	data := make([]byte, n)
-	for i := range data {
-		data[i] = vU8("d")
-	}
+	// concrete payload: its checksum is part of the header, and symbolic header
+	// bytes make the protobuf parser fork on every shifted field boundary
+	data := []byte{0x11, 0x22}
 	fs := &vFS{files: map[string][]byte{}}
 	vWriteSnapshot(fs, data)
 	file := fs.files["ss"]
 	hlen := int(file[0]) // header shorter than 256 bytes
 	pos := vChoose("pos", 8+hlen+6)
-	mask := vU8("mask")
-	vAssume(mask != 0)
+	// one flipped bit, or the whole byte inverted (an arbitrary 8-bit mask
+	// multiplies the protobuf parse paths beyond reach: ~10^6 paths)
+	mask := byte(0xff)
+	if b := vChoose("bit", 9); b < 8 {
+		mask = 1 << uint(b)
+	}
 	file[pos] ^= mask
 	fs.files["ss"] = file
 	failed := false
